@@ -42,6 +42,16 @@ def gen_case(rng, pi_method=None, size="small", **kw):
         for i in e.cur.index:
             if e.roles.get(e.cur.loc[i, "geographic_unit_fips"]) == "reporting":
                 e.cur.loc[i, "percent_expected_vote"] = max(float(e.cur.loc[i, "percent_expected_vote"]), e.threshold)
+    if pi == "bootstrap" and not district and rng.random() < 0.5:
+        # early in the night: a unit that is not in the prepared data, in a county that is not there either, without a vote yet - a
+        # group whose predicted two-party turnout is exactly zero
+        rows = e.pre.to_dict(orient="records")
+        r = E.unexpected_row(rng, e, rows, kind="unknown-county", votes=(0, 0))
+        if r["geographic_unit_fips"] not in set(e.cur["geographic_unit_fips"]):
+            r["results_turnout"] = 0
+            e.cur = pd.concat([e.cur, pd.DataFrame([r])], ignore_index=True)
+            if aggregates is None:
+                aggregates = rng.choice([["postal_code", "county_fips", "unit"], ["county_fips", "postal_code"], ["unit", "county_fips", "postal_code"]])
     if pi == "bootstrap":
         estimands = ["margin"]
         alphas = rng.sample([0.5, 0.75, 0.9], 2)
